@@ -2011,6 +2011,13 @@ class Workflow(Trellis):
         # Check overlap before the recycle short-circuit below,
         # so it applies uniformly to a fresh definition and a re-definition.
         step_label = Step.adjust_label(command, workdir)
+        # A step that defines a step with its own label would become its own creator.
+        # An attached step is refused below (`_raise_if_step_exists`), but a step that is still
+        # running while it has been detached (its creator failed or is being rerun) would reach
+        # `try_recycle` or `create` with itself as the new creator, which the node table rejects
+        # with an IntegrityError (CHECK creator != i) instead of a message for the plan author.
+        if isinstance(creator, Step) and creator.label == step_label:
+            raise GraphError(f"Step ({step_label}) cannot define itself.")
         self._raise_if_glob_match(step_label, out_paths + vol_paths)
 
         # If a compatible detached step is found, fully recycle it, instead of creating a new one.
